@@ -49,6 +49,7 @@ func c09ShedRun(r *zsim.Run) {
 	threshold := int64(900)
 	var overloadReads []time.Duration
 	overloadUntil := time.Duration(-1)
+	forceOverload := false
 	overloadOdds := zsim.Pick(f, 12, 200, 3000)
 	saved := systemOverloadChecker
 	defer func() { systemOverloadChecker = saved }()
@@ -60,7 +61,7 @@ func c09ShedRun(r *zsim.Run) {
 		if r.Now() > overloadUntil && f.Intn(overloadOdds) == overloadOdds-1 {
 			overloadUntil = r.Now() + time.Duration(50+f.Intn(2000))*time.Millisecond
 		}
-		if r.Now() <= overloadUntil {
+		if r.Now() <= overloadUntil || forceOverload {
 			overloadReads = append(overloadReads, r.Now())
 			r.FaultFired("cpu-overloaded-reading")
 			return true
@@ -84,6 +85,10 @@ func c09ShedRun(r *zsim.Run) {
 		}
 	}
 	maxAtCompletion := int64(0)
+	// upper bound on the smoothed in-flight figure: the same moving average, fed at every completion (passed or
+	// failed) with an upper bound of the in-flight count the library can see at that completion
+	emaHi := 0.0
+	emaPeaks := map[int]*float64{} // per caller: the largest emaHi while its Allow is in progress
 	admitted, resolved, rejected := 0, 0, 0
 	callers := 2 + o.Intn(7)
 	done := 0
@@ -111,61 +116,132 @@ func c09ShedRun(r *zsim.Run) {
 		}
 		return int64(math.Max(1, maxPass*float64(perSecond)*(minRt/1e3)))
 	}
-	for c := 0; c < callers; c++ {
+	// one request of caller c: Allow, work for lat, report; false = rejected (or the run has failed)
+	request := func(c int, lat time.Duration, fail bool) bool {
+		now := r.Now()
+		hiBefore := high
+		peaks[c] = &hiBefore
+		emaPeak := emaHi
+		emaPeaks[c] = &emaPeak
+		high++ // upper bound: the shedder counts the request inside Allow
+		bump(c)
+		p, err := sh.Allow()
+		delete(peaks, c)
+		delete(emaPeaks, c)
+		if err != nil {
+			high--
+		}
+		if err != nil {
+			rejected++
+			r.Probe("rejected")
+			r.Logf("c%d rejected (in-flight %d..%d)", c, low, high)
+			recent := false
+			for _, t := range overloadReads {
+				if now-t < time.Second+time.Millisecond && t <= r.Now() {
+					recent = true
+				}
+			}
+			if !recent {
+				r.Failf("rejected-without-overload", "a request was rejected at %v although no CPU reading at or above the threshold was taken during the last second", now)
+				return false
+			}
+			cap := capacity(now)
+			if hiBefore < cap || maxAtCompletion < cap {
+				r.Failf("rejected-below-capacity", "a request was rejected at %v with at most %d in flight (largest in-flight seen at a completion: %d) while the capacity estimated from the window is %d", now, hiBefore, maxAtCompletion, cap)
+				return false
+			}
+			// (half a unit of slack: overlapping completions may be applied in another order than they return)
+			if emaPeak+0.5 < float64(cap+1) {
+				r.Failf("rejected-while-smoothed-below-capacity", "a request was rejected at %v although the smoothed in-flight count can be at most %.2f (moving average over all completions, failed ones included) and the capacity estimated from the window is %d: both the current and the smoothed count must exceed it", now, emaPeak, cap)
+				return false
+			}
+			return false
+		}
+		admitted++
+		low++
+		d := lat + time.Duration(o.Intn(5))*time.Millisecond
+		zsim.Sleep(d)
+		low--
+		if high-1 > maxAtCompletion {
+			maxAtCompletion = high - 1
+		}
+		// the library applies this completion's step of the moving average somewhere inside Pass/Fail: a step
+		// that raises the average is credited before the call, one that lowers it only after the call
+		hC := float64(high - 1)
+		raised := false
+		if v := emaHi*flyingBeta + hC*(1-flyingBeta); v > emaHi {
+			emaHi, raised = v, true
+			for _, ep := range emaPeaks {
+				if emaHi > *ep {
+					*ep = emaHi
+				}
+			}
+		}
+		if fail {
+			p.Fail()
+		} else {
+			passes = append(passes, c09Pass{r.Now(), math.Ceil(float64(d) / float64(time.Millisecond))})
+			p.Pass()
+		}
+		if !raised {
+			emaHi = emaHi*flyingBeta + hC*(1-flyingBeta)
+		}
+		high--
+		resolved++
+		return true
+	}
+
+	scripted := o.Intn(4) == 0
+	if scripted {
+		// burst - drain - burst: concurrent passing requests raise the smoothed in-flight count, a long series of
+		// single failing requests lets it decay, then every caller arrives at once while the CPU is overloaded
+		k := callers
+		lat := time.Duration(zsim.Pick(o, 50, 100, 150)) * time.Millisecond
+		for c := 0; c < k; c++ {
+			c := c
+			r.Go(fmt.Sprintf("caller%d", c), func() {
+				defer func() { done++ }()
+				for i := 0; i < 3+o.Intn(4) && !r.Failed(); i++ {
+					request(c, lat, false)
+				}
+			})
+		}
+		if !r.WaitFor(30*time.Minute, 10*time.Millisecond, func() bool { return done == k }) {
+			r.Failf("callers-blocked", "callers blocked: %v", r.Alive(false))
+			return
+		}
+		for i := 0; i < 10+o.Intn(40) && !r.Failed(); i++ {
+			request(0, time.Duration(1+o.Intn(3))*time.Millisecond, o.Intn(8) > 0)
+		}
+		forceOverload = true
+		done = 0
+		for c := 0; c < k; c++ {
+			c := c
+			r.Go(fmt.Sprintf("burst%d", c), func() {
+				defer func() { done++ }()
+				request(c, lat, o.Intn(3) == 0)
+			})
+		}
+		if !r.WaitFor(30*time.Minute, 10*time.Millisecond, func() bool { return done == k }) {
+			r.Failf("callers-blocked", "callers blocked: %v", r.Alive(false))
+			return
+		}
+		forceOverload = false
+		r.Probe("burst_drain_burst")
+		done = callers
+	}
+	for c := 0; c < callers && !scripted; c++ {
 		c := c
 		n := 4 + o.Intn(20)
 		lat := time.Duration(zsim.Pick(o, 2, 1, 10, 40, 150)) * time.Millisecond
+		failOdds := zsim.Pick(o, 5, 5, 2, 1, 1000)
 		r.Go(fmt.Sprintf("caller%d", c), func() {
 			defer func() { done++ }()
 			for i := 0; i < n && !r.Failed(); i++ {
-				now := r.Now()
-				hiBefore := high
-				peaks[c] = &hiBefore
-				high++ // upper bound: the shedder counts the request inside Allow
-				bump(c)
-				p, err := sh.Allow()
-				delete(peaks, c)
-				if err != nil {
-					high--
-				}
-				if err != nil {
-					rejected++
-					r.Probe("rejected")
-					r.Logf("c%d rejected (in-flight %d..%d)", c, low, high)
-					recent := false
-					for _, t := range overloadReads {
-						if now-t < time.Second+time.Millisecond && t <= r.Now() {
-							recent = true
-						}
-					}
-					if !recent {
-						r.Failf("rejected-without-overload", "a request was rejected at %v although no CPU reading at or above the threshold was taken during the last second", now)
-						return
-					}
-					cap := capacity(now)
-					if hiBefore < cap || maxAtCompletion < cap {
-						r.Failf("rejected-below-capacity", "a request was rejected at %v with at most %d in flight (largest in-flight seen at a completion: %d) while the capacity estimated from the window is %d", now, hiBefore, maxAtCompletion, cap)
-						return
-					}
+				if !request(c, lat, o.Intn(failOdds) == failOdds-1) {
 					zsim.Sleep(time.Duration(1+o.Intn(30)) * time.Millisecond)
 					continue
 				}
-				admitted++
-				low++
-				d := lat + time.Duration(o.Intn(5))*time.Millisecond
-				zsim.Sleep(d)
-				low--
-				if high-1 > maxAtCompletion {
-					maxAtCompletion = high - 1
-				}
-				if o.Intn(5) == 4 {
-					p.Fail()
-				} else {
-					passes = append(passes, c09Pass{r.Now(), math.Ceil(float64(d) / float64(time.Millisecond))})
-					p.Pass()
-				}
-				high--
-				resolved++
 				if gap := zsim.Pick(o, 0, 0, 1, 5, 50, 400); gap > 0 {
 					zsim.Sleep(time.Duration(gap) * time.Millisecond)
 				}
